@@ -94,9 +94,8 @@ def r4(run):
     if b is None:
         return
     ins = q.live_calls(b, C.INSERT_FRAME)
-    g = c09.ephemeral_guards(b)
     for c in ins:
-        run.ob(IMPORT + "|ephemeral-rejected-first", bool(g) and q.dominated(b, c.bb, via_edges=g), c.sp, "an ephemeral frame is rejected before anything is stored", reason="ephemeral-may-be-stored")
+        run.ob(IMPORT + "|ephemeral-rejected-first", c09.never_for_ephemeral(b, c.bb), c.sp, "an ephemeral frame is rejected before anything is stored", reason="ephemeral-may-be-stored")
         ok_edges = q.call_result_edges(b, c, ok=True)
         rets = [bb for (bb, e, raw) in b.return_defs() if strip(e)[0] == "agg" and strip(e)[1].get("variant") == "Ok" and any(
             y[0] == "call" and y[1].fn.endswith("Builder::body") for y in walk(e))]
